@@ -1,16 +1,43 @@
 # C12 job table (see DESIGN.md section 3 / C12)
 from .jobs import job, Q, T
 
+# per-arity floors: Callback.hpp has nine separate emit() bodies and nine connect()/disconnect() templates (0..8 arguments); every one of them must have been
+# driven through the states the property is about (counters <event>_arity_<k> are flushed by h_callback.cpp:flushArityStats)
+def _arity_floors(emit, connect, disconnect, invoked, conn_emitting, disc_emitting, passed_over, dropped, ended, recursive):
+    d = {}
+    for k in range(9):
+        d['emit_arity_%d' % k] = emit
+        d['connect_arity_%d' % k] = connect
+        d['disconnect_arity_%d' % k] = disconnect
+        d['invoked_arity_%d' % k] = invoked
+        d['connect_signal_emitting_arity_%d' % k] = conn_emitting
+        d['disconnect_signal_emitting_arity_%d' % k] = disc_emitting
+        d['passed_over_connected_during_emission_arity_%d' % k] = passed_over
+        d['pending_slot_dropped_before_its_turn_arity_%d' % k] = dropped
+        d['emission_ended_by_emitter_destruction_arity_%d' % k] = ended
+        d['emit_recursive_arity_%d' % k] = recursive
+        if k:
+            d['arguments_compared_arity_%d' % k] = invoked * k
+    d['set:emit_arities'] = 9
+    d['set:connect_arities'] = 9
+    d['set:disconnect_arities'] = 9
+    d['set:arity_event'] = 98      # 9 arities x 11 event kinds, minus arguments_compared for arity 0
+    return d
+
 SPEC = dict(
     level='exploration',
-    rule='(programs) case = one random program over 1..3 heap-allocated emitters x 2 signals (0 and 1 argument) x 1..4 heap-allocated listeners x 2 slots per signal: '
+    rule='(programs) case = one random program over 1..3 heap-allocated emitters x 2 signals x 1..4 heap-allocated listeners x 2 slots per signal (the emitter class has nine signals with 0..8 arguments, '
+         'the listener class two slots - one virtual - per arity; every emitter object, also a recreated one, draws which two distinct arities stand behind its two signals, so all nine '
+         'emit()/connect()/disconnect() overloads run under the same model; an emission passes distinguishable values of mixed types - Elem, long, int, Elem, u64, double, const Elem&, const long* - '
+         'and every slot compares every argument): '
          '6..80 top-level actions (connect / disconnect / emit / destroy listener / destroy emitter / recreate, and actions focused on one connection: '
          'self-disconnect, disconnect-connect-... sequences, destroy own listener, destroy the emitting emitter, recursive emission, duplicate connect); every slot '
          'invocation draws nested actions from the same seeded stream (emission depth <= 4), swarm-weighted per case. distinct = hash of the executed action tree; '
          'non-trivial = at least 2 slot invocations and at least 1 action executed inside a slot. Compared: every slot entry against the next invocation predicted by '
          'a lockstep model of connection records (exact listener, slot, argument, order), the end of every emission against "nothing left to invoke", and after every '
          'top-level action (no emission in progress) a walk of Emitter::signalData / Listener::slotData against the live connections of the model. '
-         '(exhaustive-q/-t) case = one of ALL 2*8^M*10^N programs (quick M=2,N=3; thorough M=3,N=4) over E0, L0, L1, one signal, one slot each: prefix (connect L0, [L0 again,] L1), emit, '
+         '(exhaustive-q/-t) case = one of ALL 2*8^M*10^N programs (quick M=2,N=3; thorough M=3,N=4) over E0, L0, L1, one signal (0 arguments), one slot each; '
+         '(exhaustive-arities-q/-t) the same program space (quick M=2,N=3; thorough M=3,N=3) enumerated completely for EACH of the nine signal arities 0..8: prefix (connect L0, [L0 again,] L1), emit, '
          'M top-level actions from {emit, connect/disconnect/delete L0|L1, delete E0}, emit, emit, where the slot invocations consume in execution order a stream of N nested actions from '
          '{stop, recursive emit, connect/disconnect self|other, delete self|other, delete emitter, recreate}; same oracles.',
     assumptions=['ASan/UBSan; library ASSERTs enabled (-DDEBUG)',
@@ -25,17 +52,19 @@ SPEC = dict(
     jobs=[
         job('exhaustive-q', 'h_callback', 'exh23', cases={Q: -1, T: 0}, procs=16),     # 2 * 8^2 * 10^3 = 128,000 programs
         job('exhaustive-t', 'h_callback', 'exh34', cases={Q: 0, T: -1}, procs=16),     # 2 * 8^3 * 10^4 = 10,240,000 programs
+        job('exhaustive-arities-q', 'h_callback', 'exh23x', cases={Q: -1, T: 0}, procs=16),   # 9 arities * 2 * 8^2 * 10^3 = 1,152,000 programs
+        job('exhaustive-arities-t', 'h_callback', 'exh33x', cases={Q: 0, T: -1}, procs=16),   # 9 arities * 2 * 8^3 * 10^3 = 9,216,000 programs
         job('programs', 'h_callback', 'programs', cases={Q: 400000, T: 6400000}, procs=16,
             probes=['Callback.disconnect/signal-emitting/bookkeeping/emitter-side-stale-record',
                     'Listener.destroy/connected-signal-emitting/bookkeeping/emitter-side-stale-record']),
     ],
     floors={Q: dict(slot_invocations=2000000, invocations_matched=2000000, nested_actions=1500000, quiescent_walks=5000000, records_compared_by_walks=20000000,
-                    exhaustive_programs=128000, op_emit_recursive_same_signal=200000, op_destroy_emitter_while_emitting=100000, op_destroy_emitter_with_nested_emissions=20000,
+                    exhaustive_programs=1280000, exhaustive_programs_all_arities=1152000, op_emit_recursive_same_signal=200000, op_destroy_emitter_while_emitting=100000, op_destroy_emitter_with_nested_emissions=20000,
                     op_destroy_listener_with_pending_slots=60000, op_disconnect_behind_dead_record_of_same_slot=100000, op_destroy_listener_behind_other_record_of_same_slot=60000,
                     dcd_sequences_signal_emitting=50000, pending_slot_dropped_before_its_turn=150000, passed_over_connected_during_emission=400000, max_emission_depth=4,
                     **{'set:action_at_depth': 80}),
             T: dict(slot_invocations=45000000, invocations_matched=45000000, nested_actions=40000000, quiescent_walks=120000000, records_compared_by_walks=450000000,
-                    exhaustive_programs=10240000, op_emit_recursive_same_signal=5000000, op_destroy_emitter_while_emitting=3000000, op_destroy_emitter_with_nested_emissions=500000,
+                    exhaustive_programs=19456000, exhaustive_programs_all_arities=9216000, op_emit_recursive_same_signal=5000000, op_destroy_emitter_while_emitting=3000000, op_destroy_emitter_with_nested_emissions=500000,
                     op_destroy_listener_with_pending_slots=2500000, op_disconnect_behind_dead_record_of_same_slot=1800000, op_destroy_listener_behind_other_record_of_same_slot=1800000,
                     dcd_sequences_signal_emitting=800000, pending_slot_dropped_before_its_turn=5000000, passed_over_connected_during_emission=9000000, max_emission_depth=4,
                     **{'set:action_at_depth': 90})},
